@@ -128,6 +128,9 @@ func newClient(s *Swarm, remoteAddr Addr, netConn net.Conn) (*Conn, error) {
 }
 
 func (c *Conn) loop(ctx context.Context) {
+	// The loop ends when the connection has ended. Take it out of the table then: otherwise getConn
+	// keeps handing out the dead connection, and the peer can never be reached again.
+	defer c.Close()
 	resp := make([]byte, MTU)
 	for {
 		select {
